@@ -7,7 +7,7 @@ import numpy as np
 from lib import fw
 
 GEN_FILES = ["AurelVerif/Gen/Env.lean", "AurelVerif/Gen/CoreKeys.lean", "AurelVerif/Gen/CoreHelpers.lean",
-             "AurelVerif/Gen/CoreCurv.lean", "AurelVerif/Gen/CoreBig.lean"]
+             "AurelVerif/Gen/CoreCurv.lean"]
 TRUSTED = [
     "Lean 4.33 kernel; axioms propext, Classical.choice, Quot.sound",
     "py2lean tracer (tools/py2lean/trace.py, coretrace.py, emit_core.py): symbolic execution of the current core.py/maths.py on numpy object arrays; "
